@@ -1,26 +1,19 @@
 package drivers
 
 import (
-	"encoding/hex"
 	"fmt"
 
-	"verif/h/world"
+	"verif/h/rt/vsched"
 )
 
 func init() { registry["DBG"] = runDbg }
 
 func runDbg(tier string, args []string) int {
-	for _, x := range []struct {
-		a   world.SigAlg
-		bit int
-	}{{world.SHA256EC, 1616}, {world.SHA256RSA, 1664}} {
-		base := c04Case{Alg: x.a, Signer: 0, AKI: 1, Path: "first-load", Flip: -1}
-		doc, _, _, _, _, _ := c04Doc(base)
-		s, e, end := c04Regions(doc)
-		fmt.Println("len", len(doc), "tbs", s, e, end, "byte", x.bit/8, "bit", x.bit%8)
-		lo := x.bit/8 - 12
-		fmt.Println(hex.EncodeToString(doc[lo : x.bit/8+12]))
-		fmt.Println(hex.EncodeToString(doc[e:]))
+	sc := findC09Scenario("f2-failed-swap-vs-handshake/disk")
+	res, obs := sc.runConcurrent(vsched.SeqChooser{}, true)
+	fmt.Println(res.Verdict, obs, res.Detail)
+	for _, t := range res.Trace {
+		fmt.Println("  ", t)
 	}
 	return 0
 }
